@@ -59,6 +59,8 @@ ALLOWED_DECODERS = {'sqlparse.lexer.Lexer.get_tokens', 'sqlparse.cli.main'}
 
 def check_who_decodes(ctx):
     repo = ctx.repo
+    from .. import rules_lexer as RL
+    helper_qnames = {h.qname for h, _, _, _ in RL.decode_sites(ctx)[1:]}
     n = 0
     for f in repo.funcs.values():
         for c in own_nodes(f.node, include_lambdas=False):
@@ -74,7 +76,7 @@ def check_who_decodes(ctx):
             if kind is None:
                 continue
             n += 1
-            ok = f.qname in ALLOWED_DECODERS
+            ok = f.qname in ALLOWED_DECODERS or f.mod.name == 'sqlparse.cli' or f.qname in helper_qnames
             ctx.ob('R19.1', f'{f.short}:{kind}:{src(c)[:50]}', f'{f.mod.relpath}:{c.lineno}',
                    f'`{src(c)[:60]}` ({kind}) is in the single decode point or the CLI', ok,
                    f'{f.short} decodes/reads input itself: input forms no longer share one decode point')
@@ -157,44 +159,47 @@ def check_get_tokens(ctx):
         ok = len(reads) == 1 and not reads[0].args and not s.orelse
         ctx.ob('R19.3', 'stream-read-all', f'{f.mod.relpath}:{s.lineno}', 'the stream is read completely with one read()', ok,
                f'`{src(s)[:80]}`')
-    decs = [n for n in own_nodes(f.node) if isinstance(n, ast.Call) and isinstance(n.func, ast.Attribute) and n.func.attr == 'decode']
-    handlers = {}
-    for t in [n for n in ast.walk(f.node) if isinstance(n, ast.Try)]:
-        for h in t.handlers:
-            for n in ast.walk(h):
-                handlers[id(n)] = (t, h)
+    from .. import rules_lexer as RL
     seen_enc = seen_utf8 = seen_fb = 0
-    for d in decs:
-        facts = [x for x in g.facts(d) if x[0] != '|']
-        loc = f'{f.mod.relpath}:{d.lineno}'
-        in_bytes = any(p and 'bytes' in e and e.startswith('isinstance(') for e, p in facts)
-        recv_ok = is_name(d.func.value, textv)
-        arg = d.args[0] if d.args else next((k.value for k in d.keywords if k.arg == 'encoding'), None)
-        extra = [k.arg for k in d.keywords if k.arg != 'encoding'] + [src(a) for a in d.args[1:]]
-        if (encv, True) in facts:
-            seen_enc += 1
-            ok = recv_ok and in_bytes and is_name(arg, encv) and not extra
-            ctx.ob('R19.3', f'decode:with-encoding', loc, 'with an encoding argument bytes are decoded with exactly that encoding', ok,
-                   f'`{src(d)}`')
-        elif id(d) in handlers:
-            seen_fb += 1
-            t, h = handlers[id(d)]
-            codec = arg.value if isinstance(arg, ast.Constant) else None
-            okh = h.type is not None and 'UnicodeDecodeError' in src(h.type)
-            nc = norm_codec(codec) if isinstance(codec, str) else None
-            ok = recv_ok and okh and nc == 'iso8859-1' and not extra
-            ctx.ob('R19.4', 'decode:fallback', loc,
-                   'bytes that are not valid UTF-8 are read as Latin-1 (docs/source/api.rst: "utf-8 or latin-1")', ok,
-                   f'`{src(d)}`: fallback codec {codec!r} (normalised {nc!r}) is not Latin-1: e.g. a backslash sequence in the bytes is '
-                   'interpreted, so the result differs from format(bytes.decode("latin-1"))')
-        else:
-            seen_utf8 += 1
-            codec = arg.value if isinstance(arg, ast.Constant) else None
-            nc = norm_codec(codec) if isinstance(codec, str) else None
-            ok = recv_ok and in_bytes and nc == 'utf-8' and not extra and (encv, False) in facts
-            ctx.ob('R19.3', 'decode:utf-8-default', loc, 'without an encoding argument bytes are first decoded as plain UTF-8', ok,
-                   f'`{src(d)}`: codec {codec!r} (normalised {nc!r}) is not plain UTF-8 (e.g. utf-8-sig drops a leading BOM that the str / '
-                   'explicit-encoding paths keep)')
+    for (df, dtext, denc, site_facts) in RL.decode_sites(ctx):
+        dg = Guards(df.node)
+        decs = [n for n in own_nodes(df.node) if isinstance(n, ast.Call) and isinstance(n.func, ast.Attribute) and n.func.attr == 'decode']
+        handlers = {}
+        for t in [n for n in ast.walk(df.node) if isinstance(n, ast.Try)]:
+            for h in t.handlers:
+                for n in ast.walk(h):
+                    handlers[id(n)] = (t, h)
+        for d in decs:
+            facts = [x for x in dg.facts(d) if x[0] != '|'] + list(site_facts)
+            loc = f'{df.mod.relpath}:{d.lineno}'
+            in_bytes = any(p and 'bytes' in e and e.startswith('isinstance(') for e, p in facts)
+            recv_ok = is_name(d.func.value, dtext)
+            arg = d.args[0] if d.args else next((k.value for k in d.keywords if k.arg == 'encoding'), None)
+            extra = [k.arg for k in d.keywords if k.arg != 'encoding'] + [src(a) for a in d.args[1:]]
+            if denc is not None and (denc, True) in facts:
+                seen_enc += 1
+                ok = recv_ok and in_bytes and is_name(arg, denc) and not extra
+                ctx.ob('R19.3', f'decode:with-encoding', loc, 'with an encoding argument bytes are decoded with exactly that encoding', ok,
+                       f'`{src(d)}`')
+            elif id(d) in handlers:
+                seen_fb += 1
+                t, h = handlers[id(d)]
+                codec = arg.value if isinstance(arg, ast.Constant) else None
+                okh = h.type is not None and 'UnicodeDecodeError' in src(h.type)
+                nc = norm_codec(codec) if isinstance(codec, str) else None
+                ok = recv_ok and okh and nc == 'iso8859-1' and not extra
+                ctx.ob('R19.4', 'decode:fallback', loc,
+                       'bytes that are not valid UTF-8 are read as Latin-1 (docs/source/api.rst: "utf-8 or latin-1")', ok,
+                       f'`{src(d)}`: fallback codec {codec!r} (normalised {nc!r}) is not Latin-1: e.g. a backslash sequence in the bytes is '
+                       'interpreted, so the result differs from format(bytes.decode("latin-1"))')
+            else:
+                seen_utf8 += 1
+                codec = arg.value if isinstance(arg, ast.Constant) else None
+                nc = norm_codec(codec) if isinstance(codec, str) else None
+                ok = recv_ok and in_bytes and nc == 'utf-8' and not extra and denc is not None and (denc, False) in facts
+                ctx.ob('R19.3', 'decode:utf-8-default', loc, 'without an encoding argument bytes are first decoded as plain UTF-8', ok,
+                       f'`{src(d)}`: codec {codec!r} (normalised {nc!r}) is not plain UTF-8 (e.g. utf-8-sig drops a leading BOM that the str / '
+                       'explicit-encoding paths keep)')
     ctx.ob('R19.3', 'decode:arms-present', f'{f.mod.relpath}:{f.node.lineno}', 'get_tokens has the three decode arms (given encoding, UTF-8, fallback)',
            seen_enc == 1 and seen_utf8 == 1 and seen_fb == 1, f'given-encoding arms: {seen_enc}, utf-8 arms: {seen_utf8}, fallback arms: {seen_fb}')
 
@@ -208,13 +213,37 @@ def check_cli(ctx):
 
     def kw(c, name):
         return next((k.value for k in c.keywords if k.arg == name), None)
-    opens = [n for n in own_nodes(f.node) if isinstance(n, ast.Call) and (is_name(n.func, 'open', 'TextIOWrapper') or src(n.func) in ('io.open', 'io.TextIOWrapper'))]
+    # main plus the private helpers of cli.py it calls; a helper parameter is traced to the argument main passes
+    cg = get_cg(ctx)
+    helpers = {}
+    for call, callees in cg.sites.get(f.qname, []):
+        for cq in callees:
+            h = repo.funcs[cq]
+            if h.mod is f.mod and h.qname != f.qname and h.name not in ('create_parser', '_error'):
+                bind = {}
+                for i, a in enumerate(call.args):
+                    if i < len(h.params):
+                        bind[h.params[i]] = src(a)
+                for k_ in call.keywords:
+                    bind[k_.arg] = src(k_.value)
+                helpers[h.qname] = (h, bind, call)
+
+    def resolve_arg(fn, e):
+        t = src(e) if e is not None else None
+        if fn is not f and t in helpers[fn.qname][1]:
+            return helpers[fn.qname][1][t]
+        return t
+    opens = []
+    for fn in [f] + [h for h, _, _ in helpers.values()]:
+        for n in own_nodes(fn.node):
+            if isinstance(n, ast.Call) and (is_name(n.func, 'open', 'TextIOWrapper') or src(n.func) in ('io.open', 'io.TextIOWrapper')):
+                opens.append((fn, n))
     n_in = n_out = 0
-    for c in opens:
-        loc = f'{f.mod.relpath}:{c.lineno}'
+    for fn, c in opens:
+        loc = f'{fn.mod.relpath}:{c.lineno}'
         mode = c.args[1].value if len(c.args) > 1 and isinstance(c.args[1], ast.Constant) else (kw(c, 'mode').value if isinstance(kw(c, 'mode'), ast.Constant) else 'r')
         enc = kw(c, 'encoding')
-        enc_ok = enc is not None and src(enc) == f'{argsv}.encoding'
+        enc_ok = enc is not None and resolve_arg(fn, enc) == f'{argsv}.encoding'
         is_wrapper = 'TextIOWrapper' in src(c.func)
         if is_wrapper or 'r' in mode:
             n_in += 1
@@ -247,7 +276,15 @@ def check_cli(ctx):
                f'`{src(c)}`')
         for d in data_defs:
             v = d.value
-            okd = (isinstance(v, ast.Call) and isinstance(v.func, ast.Attribute) and v.func.attr == 'read' and not v.args) or \
+            def whole_read(x):
+                return isinstance(x, ast.Call) and isinstance(x.func, ast.Attribute) and x.func.attr == 'read' and not x.args
+            via_helper = False
+            if isinstance(v, ast.Call):
+                for h, bind, call in helpers.values():
+                    if call is v:
+                        rets = [r_ for r_ in own_nodes(h.node) if isinstance(r_, ast.Return)]
+                        via_helper = bool(rets) and all(whole_read(r_.value) for r_ in rets)
+            okd = via_helper or (isinstance(v, ast.Call) and isinstance(v.func, ast.Attribute) and v.func.attr == 'read' and not v.args) or \
                 (isinstance(v, ast.Call) and isinstance(v.func, ast.Attribute) and v.func.attr == 'join' and isinstance(v.func.value, ast.Constant)
                  and v.func.value.value == '' and isinstance(v.args[0], ast.Call) and isinstance(v.args[0].func, ast.Attribute)
                  and v.args[0].func.attr == 'readlines')
